@@ -447,6 +447,8 @@ func (b *bld) ackIds(c string) []string {
 		return []string{"not-an-ack-id"}
 	case "mixed":
 		return []string{b.st.Live[0], "not-an-ack-id"}
+	case "blank": // an EMPTY string among otherwise valid ids
+		return []string{"", b.st.Live[0]}
 	}
 	panic("ack id class " + c)
 }
@@ -731,6 +733,10 @@ func build(v Vec, st *PreState) (cl *call, err error) {
 			req.ModifyDeadlineAckIds = []string{st.Live[1]}
 		case "garbage":
 			req.ModifyDeadlineAckIds, req.ModifyDeadlineSeconds = []string{"not-an-ack-id"}, []int32{10}
+		case "blank": // an empty string among valid ids, lengths matched
+			req.ModifyDeadlineAckIds, req.ModifyDeadlineSeconds = []string{"", st.Live[1]}, []int32{600, 600}
+		case "mixed": // a zero deadline and a positive one in the same request
+			req.ModifyDeadlineAckIds, req.ModifyDeadlineSeconds = []string{st.Live[0], st.Live[1]}, []int32{0, 30}
 		default:
 			panic("modify_deadline class")
 		}
